@@ -15,11 +15,10 @@ through `Sliced`, `A @ chunk`, shifted chunk, row sums, trimming) with the hard-
 `cola.linalg.trace(A, alg)` (`alg` ∈ {omitted = `Auto()`, `Exact()`}): rule selection + every
 rule of `cola/linalg/trace/diag_trace.py`; `.error _` = the call refuses.
 
-Hypotheses: `A.wf`, `A.dupSlice = false`, `A.HermOK` (those of C01, `Op.Good`), and the two NAMED
-CLAUSES (recorded defects of cola, witnesses below):
-* `bdiag-nonsquare-block`  (`A.nonsqBlock = false`): the rule recursion reaches no `BlockDiag` with a
-  non-square block;
-* `kron-nonsquare-factor`  (`A.nonsqFactor = false`): it reaches no `Kronecker` with a non-square factor.
+Hypotheses: `A.wf`, `A.dupSlice = false`, `A.HermOK` (those of C01, `Op.Good`; `dupSlice` is C01's
+recorded clause `sliced-repeated-index`, a hypothesis of `Op.mm_eq`).  C08 has no clause of its own any more: the two defects found while building this check
+(`diag(BlockDiag)` / `diag(Kronecker)` with non-square members returned wrong values) are repaired in
+/repo — the rules now refuse — and are kept below as regression lemmas.
 -/
 
 namespace C08
@@ -63,40 +62,38 @@ theorem C08_auto_default (numel : Nat) :
 for every square tree over Dense, Triangular, Identity, Diagonal, ScalarMul, Sum, BlockDiag with
 multiplicities, Kronecker, KronSum (any number of members, any nesting), products and all generic
 kinds, every offset, every block-size constant; every other outcome is a refusal. -/
-theorem C08_rules_partial (bs0 : Nat) (hbs : 0 < bs0) (alg : Alg) (A : Op R) (hwf : A.wf = true)
-    (hnd : A.dupSlice = false) (hh : A.HermOK) (hblk : A.nonsqBlock = false)
-    (hfac : A.nonsqFactor = false) (hsq : A.rows = A.cols) (k : Int) (d : List R)
+theorem C08_rules (bs0 : Nat) (hbs : 0 < bs0) (alg : Alg) (A : Op R) (hwf : A.wf = true)
+    (hnd : A.dupSlice = false) (hh : A.HermOK) (hsq : A.rows = A.cols) (k : Int) (d : List R)
     (h : diagCode bs0 alg A k = .ok d) : d = diagK A.den.f A.rows k :=
-  diagCode_sound bs0 hbs alg A ⟨hwf, hnd, hh⟩ hblk hfac hsq k d h
+  diagCode_sound bs0 hbs alg A ⟨hwf, hnd, hh⟩ hsq k d h
 
 /-- length of a returned array -/
-theorem C08_rules_length_partial (bs0 : Nat) (hbs : 0 < bs0) (alg : Alg) (A : Op R)
-    (hwf : A.wf = true) (hnd : A.dupSlice = false) (hh : A.HermOK) (hblk : A.nonsqBlock = false)
-    (hfac : A.nonsqFactor = false) (hsq : A.rows = A.cols) (k : Int) (d : List R)
+theorem C08_rules_length (bs0 : Nat) (hbs : 0 < bs0) (alg : Alg) (A : Op R)
+    (hwf : A.wf = true) (hnd : A.dupSlice = false) (hh : A.HermOK)
+    (hsq : A.rows = A.cols) (k : Int) (d : List R)
     (h : diagCode bs0 alg A k = .ok d) : d.length = A.rows - k.natAbs := by
-  rw [C08_rules_partial bs0 hbs alg A hwf hnd hh hblk hfac hsq k d h, diagK_length]
+  rw [C08_rules bs0 hbs alg A hwf hnd hh hsq k d h, diagK_length]
 
 /-- **C08 (rule vs probing).**  A structural rule returns the same values as the generic probing
 algorithm run on the same operator, or refuses; it never returns different values. -/
-theorem C08_rule_agrees_with_probing_partial (bs0 : Nat) (hbs : 0 < bs0) (alg : Alg) (A : Op R)
-    (hwf : A.wf = true) (hnd : A.dupSlice = false) (hh : A.HermOK) (hblk : A.nonsqBlock = false)
-    (hfac : A.nonsqFactor = false) (hsq : A.rows = A.cols) (k : Int) :
+theorem C08_rule_agrees_with_probing (bs0 : Nat) (hbs : 0 < bs0) (alg : Alg) (A : Op R)
+    (hwf : A.wf = true) (hnd : A.dupSlice = false) (hh : A.HermOK)
+    (hsq : A.rows = A.cols) (k : Int) :
     diagCode bs0 alg A k = .ok (exactDiag bs0 A k) ∨ ∃ msg, diagCode bs0 alg A k = .error msg := by
   cases hd : diagCode bs0 alg A k with
   | error msg => exact Or.inr ⟨msg, rfl⟩
   | ok d =>
     left
-    rw [C08_rules_partial bs0 hbs alg A hwf hnd hh hblk hfac hsq k d hd,
+    rw [C08_rules bs0 hbs alg A hwf hnd hh hsq k d hd,
       C08_exact bs0 hbs A hwf hnd hh hsq k]
 
 /-- **C08 (trace).**  Whenever `trace(A, alg)` returns a value, the operator is square and the
 value is the sum of the main diagonal of the represented matrix (the `Kronecker` rule
 `prod(trace(M))` included); every other outcome is a refusal. -/
-theorem C08_trace_partial (bs0 : Nat) (hbs : 0 < bs0) (alg : Alg) (A : Op R) (hwf : A.wf = true)
-    (hnd : A.dupSlice = false) (hh : A.HermOK) (hblk : A.nonsqBlock = false)
-    (hfac : A.nonsqFactor = false) (t : R) (h : traceCode bs0 alg A = .ok t) :
+theorem C08_trace (bs0 : Nat) (hbs : 0 < bs0) (alg : Alg) (A : Op R) (hwf : A.wf = true)
+    (hnd : A.dupSlice = false) (hh : A.HermOK) (t : R) (h : traceCode bs0 alg A = .ok t) :
     A.rows = A.cols ∧ t = traceSpec A.den.f A.rows :=
-  traceCode_sound bs0 hbs alg A ⟨hwf, hnd, hh⟩ hblk hfac t h
+  traceCode_sound bs0 hbs alg A ⟨hwf, hnd, hh⟩ t h
 
 omit [DecidableEq R] in
 /-- `trace(M₁ ⊗ … ⊗ M_k) = Π trace(M_i)` for square factors (what the `Kronecker` rule of `trace`
@@ -128,61 +125,52 @@ theorem C08_spec_is_mathlib_diag (D : MatF R) (n : Nat) :
   · intro t h1 h2
     simp [diagK, Matrix.diag, MatF.toMatrix]
 
-/-! ## the clauses are needed; the hypotheses are satisfiable -/
+/-! ## regression lemmas for the two repaired defects; the hypotheses are satisfiable -/
 
-/-- **clause `bdiag-nonsquare-block` is needed**: the square `BlockDiag` of the blocks `[1 2]` (1×2)
-and `[3 4]ᵀ` (2×1) represents `[[1,2,0],[0,0,3],[0,0,4]]` with diagonal `[1,0,4]` and trace `5`; the
-rule concatenates the blocks' own diagonals: `diag` returns `[1,3]`, `trace` returns `4`.  All other
-hypotheses hold. -/
-theorem C08_clause_needed_block :
+/-- **regression (repaired defect `bdiag-nonsquare-block`)**: the square `BlockDiag` of the blocks
+`[1 2]` (1×2) and `[3 4]ᵀ` (2×1) represents `[[1,2,0],[0,0,3],[0,0,4]]` with diagonal `[1,0,4]` and
+trace `5`; concatenating the blocks' own diagonals gave `[1,3]` / `4`.  The rule now refuses. -/
+theorem C08_regression_block :
     let A : Op Int := .bdiag [.dense .f64 1 2 (fun _ j => (j : Int) + 1), .dense .f64 2 1 (fun i _ => (i : Int) + 3)] [1, 1]
-    A.wf = true ∧ A.dupSlice = false ∧ A.HermOK ∧ A.rows = A.cols ∧ A.nonsqFactor = false ∧
-      A.nonsqBlock = true ∧
-      diagCode 100 .auto A 0 = .ok [1, 3] ∧ diagK A.den.f A.rows 0 = [1, 0, 4] ∧
-      traceCode 100 .auto A = .ok 4 ∧ traceSpec A.den.f A.rows = 5 := by
-  refine ⟨?_, ?_, ?_, ?_, ?_, ?_, ?_, ?_, ?_, ?_⟩
-  · simp [Op.wf]
-  · simp [Op.dupSlice]
-  · simp [Op.HermOK, Op.HermNode, Op.isa, Op.anns, AnnSet.isa, AnnSet.interAll, AnnSet.inter]
-  · simp [Op.rows, Op.cols, Op.dotSum]
-  · simp [Op.nonsqFactor]
-  · simp [Op.nonsqBlock, Op.rows, Op.cols]
-  · simp [Op.diagCode, Op.seqE, Op.npDiag, bind, Except.bind, pure, Except.pure, List.range_succ]
-  · simp [Op.diagK, Op.den, Op.rows, Op.cols, Op.dotSum, bdiagDen, expandBlocks, blockDiagM,
-      List.range_succ]
-  · simp [Op.traceCode, Op.diagCode, Op.seqE, Op.npDiag, Op.rows, Op.cols, Op.dotSum, bind,
-      Except.bind, pure, Except.pure, List.range_succ]
-  · simp [Op.traceSpec, sumTo, Op.den, Op.rows, Op.cols, Op.dotSum, bdiagDen, expandBlocks, blockDiagM]
-
-/-- **clause `kron-nonsquare-factor` is needed**: the square Kronecker product of `[1 2]` (1×2) and
-`[3 4]ᵀ` (2×1) represents `[[3,6],[4,8]]` with diagonal `[3,8]`; the rule takes the outer product
-of the factors' own diagonals `[1]`, `[3]` and returns `[3]` (wrong length).  All other
-hypotheses hold. -/
-theorem C08_clause_needed_factor :
-    let A : Op Int := .kron [.dense .f64 1 2 (fun _ j => (j : Int) + 1), .dense .f64 2 1 (fun i _ => (i : Int) + 3)]
-    A.wf = true ∧ A.dupSlice = false ∧ A.HermOK ∧ A.rows = A.cols ∧ A.nonsqBlock = false ∧
-      A.nonsqFactor = true ∧
-      diagCode 100 .auto A 0 = .ok [3] ∧ diagK A.den.f A.rows 0 = [3, 8] := by
+    A.wf = true ∧ A.dupSlice = false ∧ A.HermOK ∧ A.rows = A.cols ∧
+      diagCode 100 .auto A 0 = .error "error:AssertionError" ∧
+      traceCode 100 .auto A = .error "error:AssertionError" ∧
+      diagK A.den.f A.rows 0 = [1, 0, 4] ∧ traceSpec A.den.f A.rows = 5 := by
   refine ⟨?_, ?_, ?_, ?_, ?_, ?_, ?_, ?_⟩
   · simp [Op.wf]
   · simp [Op.dupSlice]
   · simp [Op.HermOK, Op.HermNode, Op.isa, Op.anns, AnnSet.isa, AnnSet.interAll, AnnSet.inter]
-  · simp [Op.rows, Op.cols]
-  · simp [Op.nonsqBlock]
-  · simp [Op.nonsqFactor, Op.rows, Op.cols]
-  · simp [Op.diagCode, Op.seqE, Op.npDiag, Op.outerProd, bind, Except.bind, pure, Except.pure,
+  · simp [Op.rows, Op.cols, Op.dotSum]
+  · simp [Op.diagCode, Op.rows, Op.cols]
+  · simp [Op.traceCode, Op.diagCode, Op.rows, Op.cols, Op.dotSum, bind, Except.bind]
+  · simp [Op.diagK, Op.den, Op.rows, Op.cols, Op.dotSum, bdiagDen, expandBlocks, blockDiagM,
       List.range_succ]
+  · simp [Op.traceSpec, sumTo, Op.den, Op.rows, Op.cols, Op.dotSum, bdiagDen, expandBlocks, blockDiagM]
+
+/-- **regression (repaired defect `kron-nonsquare-factor`)**: the square Kronecker product of
+`[1 2]` (1×2) and `[3 4]ᵀ` (2×1) represents `[[3,6],[4,8]]` with diagonal `[3,8]`; the outer product
+of the factors' own diagonals gave `[3]`.  The rule now refuses. -/
+theorem C08_regression_factor :
+    let A : Op Int := .kron [.dense .f64 1 2 (fun _ j => (j : Int) + 1), .dense .f64 2 1 (fun i _ => (i : Int) + 3)]
+    A.wf = true ∧ A.dupSlice = false ∧ A.HermOK ∧ A.rows = A.cols ∧
+      diagCode 100 .auto A 0 = .error "error:AssertionError" ∧ diagK A.den.f A.rows 0 = [3, 8] := by
+  refine ⟨?_, ?_, ?_, ?_, ?_, ?_⟩
+  · simp [Op.wf]
+  · simp [Op.dupSlice]
+  · simp [Op.HermOK, Op.HermNode, Op.isa, Op.anns, AnnSet.isa, AnnSet.interAll, AnnSet.inter]
+  · simp [Op.rows, Op.cols]
+  · simp [Op.diagCode, Op.rows, Op.cols]
   · simp [Op.diagK, Op.den, Op.rows, Op.cols, kronDen, kronEntry, unravel, List.range_succ]
 
 /-- non-vacuity: a nested square tree with a BlockDiag with multiplicities, a Kronecker product,
 a KronSum, a Sum, a ScalarMul, a product and a generic operator satisfies every hypothesis of the
-partial theorems (`HermOK` is C05's business; here all annotation sets are checked directly). -/
+theorems (`HermOK` is C05's business; here all annotation sets are checked directly). -/
 example :
     let A : Op Int := .sum [
       .bdiag [.kron [.dense .f64 2 2 (fun i j => (i : Int) + j), .eye .f64 1], .scalar .f64 3 1] [1, 2],
       .kronsum [.diag .f64 2 (fun i => (i : Int) + 1), .generic (.prod [.dense .f64 2 2 (fun i j => (i : Int) - j), .dense .f64 2 2 (fun _ _ => 1)])]]
-    A.wf = true ∧ A.dupSlice = false ∧ A.nonsqBlock = false ∧ A.nonsqFactor = false ∧ A.rows = A.cols := by
-  simp [Op.wf, Op.dupSlice, Op.nonsqBlock, Op.nonsqFactor, Op.rows, Op.cols, Op.dotSum, Op.chainOk]
+    A.wf = true ∧ A.dupSlice = false ∧ A.rows = A.cols := by
+  simp [Op.wf, Op.dupSlice, Op.rows, Op.cols, Op.dotSum, Op.chainOk]
 
 end C08
 
@@ -190,15 +178,15 @@ end C08
 #print axioms C08.C08_exact_length
 #print axioms C08.C08_exact_entries
 #print axioms C08.C08_auto_default
-#print axioms C08.C08_rules_partial
-#print axioms C08.C08_rules_length_partial
-#print axioms C08.C08_rule_agrees_with_probing_partial
-#print axioms C08.C08_trace_partial
+#print axioms C08.C08_rules
+#print axioms C08.C08_rules_length
+#print axioms C08.C08_rule_agrees_with_probing
+#print axioms C08.C08_trace
 #print axioms C08.C08_trace_kron
 #print axioms C08.C08_spec_is_mathlib_trace
 #print axioms C08.C08_spec_is_mathlib_diag
-#print axioms C08.C08_clause_needed_block
-#print axioms C08.C08_clause_needed_factor
+#print axioms C08.C08_regression_block
+#print axioms C08.C08_regression_factor
 #print axioms Op.idCols_eq
 #print axioms Op.chunk_partition
 #print axioms Op.kron_trace_list
